@@ -65,7 +65,8 @@ def secrets(curve):
 
 
 def passphrases(tier):
-    base = ['a', 'pw', b'\x00\xff', 'x' * 64, '']
+    # 'cafe' / '1234' / '0x00': passphrases that LOOK like hexadecimal (input scrubbing must not reinterpret them)
+    base = ['a', 'pw', b'\x00\xff', 'x' * 64, '', 'cafe', '1234', '0x00']
     if tier != 'quick':
         base += ['päss wörd', ' ', b'\xff' * 33]
     return base
